@@ -87,4 +87,6 @@ def rule_strict_csv_reader(ctx):
     decide(ctx, "O6.3c", "csv.reader is strict", "cutplace.rowio._as_delimited_keywords", cell, min_cells=20)
 
 
-RULES = [rule_modes, rule_copies, rule_raw_reader_escapes, rule_csv_fault_conversion, rule_strict_csv_reader]
+from .common import rule_module_state  # noqa: E402
+
+RULES = [rule_modes, rule_copies, rule_raw_reader_escapes, rule_csv_fault_conversion, rule_strict_csv_reader, rule_module_state]
